@@ -570,7 +570,7 @@ func (g *c09Gen) typed(typ string) any {
 		pick := func() int { return []int{0, 0, 1, -1, 1024, 65535}[r.Intn(6)] }
 		return map[string]any{"Single": pick(), "Soft": pick(), "Hard": pick()}
 	case "EnvFile":
-		return map[string]any{"Path": []string{"", "./a.env", "b", "/abs/x.env"}[r.Intn(4)], "Required": r.Intn(2) == 0, "Format": []string{"", "", "raw"}[r.Intn(3)]}
+		return map[string]any{"Path": []string{"", "./a.env", "b", "/abs/x.env"}[r.Intn(4)], "Required": r.Intn(2) == 0, "Format": []string{"", "", "c09raw"}[r.Intn(3)]}
 	case "SSHConfig":
 		if r.Intn(8) == 0 {
 			return nil
@@ -702,7 +702,7 @@ func (g *c09Gen) tree(typ string) any {
 			m["required"] = r.Intn(2) == 0
 		}
 		if r.Intn(3) == 0 {
-			m["format"] = "raw"
+			m["format"] = "c09raw"
 		}
 		return m
 	case "SSHConfig":
@@ -775,7 +775,7 @@ func runC09Corr(ctx *core.Ctx) {
 	// every (path, required, format) and every (id, path) over a small alphabet
 	for _, p := range []string{"", "./a.env", "k: v"} {
 		for _, req := range []bool{false, true} {
-			for _, fm := range []string{"", "raw"} {
+			for _, fm := range []string{"", "c09raw"} {
 				for _, f := range []string{"yaml", "json"} {
 					ctx.Count("exh:marshal:EnvFile")
 					ctx.Add("c09.marshal", corrArgs{Type: "EnvFile", Fmt: f, V: core.EncodeVal(map[string]any{"Path": p, "Required": req, "Format": fm})})
